@@ -252,26 +252,83 @@ def run_tables(P, C):
                 prefix.append((bi, parts, holes))
         C.floor("R5", "comparison templates", len(main), 3)
         C.floor("R5", "tie-prefix templates", len(prefix), 3)
-        # operator local(s)
-        ope_locals = set()
-        for bi, parts, holes in main:
-            h = holes[1]
-            for s in mir.subterms(h[1]):
-                pass
-        # the operator hole is a char: find the char locals assigned constants
+        # which cursor list is used, as a function of a boolean: the code either keeps a flag next to the list
+        # (`let mut before = true; let paging = if .. {&p.before} else {before = false; &p.after}`) or binds both at once
+        # (`let (before, paging) = if .. {(true, &p.before)} else {(false, &p.after)}`), possibly passing the flag to a helper
         chars = [l for l, name, ty, leaf in gp.named_locals() if ty == "char"]
         table = {}
         bad = []
+        pl = [l for l, name, ty, leaf in gp.named_locals() if re.search(r"Vec<.*FieldValue>", ty) and ty.startswith("&")]
+        if len(pl) != 1:
+            raise mir.MissingAnchor("get_paging: the cursor list variable (a &Vec<FieldValue>) is not unique: %s" % pl)
+
+        def list_name(t):
+            fp = field_path(strip_refs(t)) if t is not None else ""
+            return "before" if fp.endswith(".before") else "after" if fp.endswith(".after") else None
+
+        def tuple_alts(local):
+            """the local is field k of a phi of tuple literals: -> (k, [tuple operands...]) else None"""
+            ds = [strip_refs(gp.def_term(bi, si, rv, 0, expand_vars=True)) for (bi, si, rv, lhs) in gp.defs().get(local, ()) if len(lhs) == 1 and not gp.blocks[bi]["cl"]]
+            if len(ds) != 1:
+                return None
+            d = ds[0]
+            if d[0] == "field" and d[2].isdigit():
+                base = strip_refs(d[1])
+                alts = base[1] if base[0] == "phi" else [base]
+                alts = [strip_refs(a) for a in alts]
+                if alts and all(a[0] == "aggr" and a[1] == "tuple" for a in alts):
+                    return int(d[2]), [a[4] for a in alts]
+            return None
+
+        def root_flag(a):
+            """follow single-definition copies of a boolean (parameters of inlined helpers) to the variable that is decided"""
+            seen = set()
+            while a[0] == "var" and len(a) > 2 and a[2] not in seen:
+                seen.add(a[2])
+                ds = gp.var_defs(a)
+                if len(ds) == 1 and strip_refs(ds[0])[0] == "var" and len(strip_refs(ds[0])) > 2 and gp.locals[strip_refs(ds[0])[2]] == "bool":
+                    a = strip_refs(ds[0])
+                else:
+                    break
+            return a
+
+        flag_map = {}     # flag local -> {True: list name, False: list name}
         lists = {}
-        for scen in (True, False):
-            pl = [l for l, name, ty, leaf in gp.named_locals() if re.search(r"Vec<.*FieldValue>", ty) and ty.startswith("&")]
-            if len(pl) != 1:
-                raise mir.MissingAnchor("get_paging: the cursor list variable (a &Vec<FieldValue>) is not unique: %s" % pl)
-            v = _scenario_eval(gp, pl[0], scen)
-            fp = field_path(v) if v is not None else ""
-            lists[scen] = "before" if fp.endswith(".before") else "after" if fp.endswith(".after") else None
-        C.ob("R5", "cursor-list", lists.get(False) == "before" and lists.get(True) == "after", gp.loc(),
-             "the cursor values are `before` when it is not empty, otherwise `after`: before-empty=%s before-non-empty=%s" % (lists.get(True), lists.get(False)))
+        ta = tuple_alts(pl[0])
+        if ta is not None:
+            # tuple idiom: the list is component k of each alternative; a flag is another component of the same alternatives
+            k_list, alts = ta
+            for l, name, ty, leaf in gp.named_locals():
+                if ty != "bool":
+                    continue
+                tf = tuple_alts(l)
+                if tf is not None and len(tf[1]) == len(alts) and [term_str(x[k_list]) for x in tf[1]] == [term_str(x[k_list]) for x in alts]:
+                    m = {}
+                    for ops in alts:
+                        fv = strip_refs(ops[tf[0]])
+                        if fv[0] == "const" and fv[1] in (True, False):
+                            m[fv[1]] = list_name(ops[k_list])
+                    if len(m) == 2:
+                        flag_map[l] = m
+            names = sorted(filter(None, (list_name(ops[k_list]) for ops in alts)))
+            C.ob("R5", "cursor-list", names == ["after", "before"], gp.loc(), "the cursor values are one of the two lists of the parameters: %s" % names)
+        else:
+            for scen in (True, False):
+                v = _scenario_eval(gp, pl[0], scen)
+                lists[scen] = list_name(v)
+            C.ob("R5", "cursor-list", lists.get(False) == "before" and lists.get(True) == "after", gp.loc(),
+                 "the cursor values are `before` when it is not empty, otherwise `after`: before-empty=%s before-non-empty=%s" % (lists.get(True), lists.get(False)))
+
+        def which_list(a, truth):
+            a = root_flag(a)
+            if a[0] == "var" and len(a) > 2 and gp.locals[a[2]] == "bool":
+                if a[2] in flag_map:
+                    return flag_map[a[2]].get(truth)
+                sc = [scen for scen in (True, False) if (_scenario_eval(gp, a[2], scen) or ("?",))[:2] == ("const", truth)]
+                if len(sc) == 1:
+                    return lists.get(sc[0])
+            return None
+
         for l in chars:
             for (bi, si, rv, lhs) in gp.defs().get(l, ()):
                 if gp.blocks[bi]["cl"] or bi not in gp.live_blocks():
@@ -281,23 +338,31 @@ def run_tables(P, C):
                     continue
                 direction = None
                 which = None
-                for atom, truth in gp.guard_atoms(bi):
-                    a = strip_refs(atom)
-                    if a[0] == "discr" and field_path(a[1]).endswith(".direction"):
-                        pass
                 for s, vals, term in gp.guards(bi):
                     dv = mir.discr_variants(term, vals)
-                    if dv and field_path(dv[0]).endswith("direction") and len(dv[1]) == 1:
-                        direction = (dv[1][0], _index_call(gp.switch_term(s, expand_vars=True), r"order_by"))
+                    if dv and len(dv[1]) == 1 and dv[1][0] in ("Asc", "Desc"):
+                        full = gp.switch_term(s, expand_vars=True)
+                        src = full[1] if full[0] == "discr" else full
+                        # the matched value may be packed in a tuple `(direction, before)`: take the Direction component
+                        if field_path(gp.origin(strip_refs(src))).endswith("direction") or re.search(r"\.direction\b", term_str(src)):
+                            direction = (dv[1][0], _index_call(src, r"order_by"))
                     else:
                         atom, truth = mir.cond_atoms(term, vals)
                         a = strip_refs(atom)
-                        if a[0] == "var" and len(a) > 2 and gp.locals[a[2]] == "bool" and truth is not None:
-                            sc = [scen for scen in (True, False) if (_scenario_eval(gp, a[2], scen) or ("?",))[:2] == ("const", truth)]
-                            if len(sc) == 1:
-                                which = lists.get(sc[0])
-                        elif a[0] == "call" and a[1].endswith("::is_empty") and term_str(a).endswith(".before)") and truth is not None:
-                            which = lists.get(truth)
+                        if truth is None:
+                            continue
+                        if a[0] == "field" and a[2].isdigit():
+                            # component of a matched tuple `(direction, before)`
+                            base = strip_refs(gp.switch_term(s, expand_vars=True))
+                            a2 = strip_refs(a[1])
+                            if a2[0] == "aggr" and a2[1] == "tuple":
+                                a = strip_refs(a2[4][int(a[2])])
+                        if a[0] == "var":
+                            w = which_list(a, truth)
+                            if w is not None:
+                                which = w
+                        elif a[0] == "call" and a[1].endswith("::is_empty") and term_str(a).endswith(".before)"):
+                            which = lists.get(truth) if lists else ("after" if truth else "before")
                 if direction is None or which is None:
                     bad.append("operator %r assigned at %s is not decided by (direction of the key, before/after): direction=%s list=%s" % (chr(v[1]), gp.loc(bi), direction, which))
                     continue
